@@ -399,6 +399,37 @@ def field_mutators(facts, owner, other=None):
     return out, names
 
 
+def check_window_owners(rep, fl, rule="R13.6"):
+    """The aging window counts recorded accesses and nothing else: TinyLFU.w is written by increment (one step per
+    recorded access), by the reset it triggers and by clear() only; and the doorkeeper takes a hash only as part of
+    such a recorded access (contains_or_add called from increment) - every hash in the filter has advanced the
+    window, so the filter never holds more than `samples` hashes between two resets (what it was sized for)."""
+    facts = fl.facts
+    other = "r#async" if fl.name == "sync" else "::sync::"
+    muts, names = field_mutators(facts, TLFU, other)
+    w_writers = {r for r, flds in muts.items() if "w" in flds}
+    allowed = {TLFU + "::increment", TLFU + "::try_reset", TLFU + "::reset", TLFU + "::clear", TLFU + "::new"}
+    if (TLFU + "::increment") not in w_writers and (TLFU + "::try_reset") not in w_writers:
+        rep.missing(rule, fl, "no write of TinyLFU.w found in increment / try_reset")
+    extra = w_writers - allowed
+    rep.check(not extra, rule, fl, TLFU, "window writers", "the sample window w is advanced by increment (and zeroed by reset / clear) only",
+              "TinyLFU.w is also written by %s: the counters are halved after fewer (or more) than `samples` recorded accesses" % sorted(short(x) for x in extra))
+    adders = set()
+    for b in facts.bodies:
+        if not user_code(b) or "::test" in b.spath or other in b.spath:
+            continue
+        for bi, t in b.calls():
+            c = b.callee_of(t)
+            if callee_matches(c, BLOOM + "::contains_or_add") or callee_matches(c, BLOOM + "::add") or callee_matches(c, BLOOM + "::set"):
+                adders.add(strip_generics(b.raw["root"]))
+    ok_adders = {TLFU + "::increment", BLOOM + "::contains_or_add", BLOOM + "::add", BLOOM + "::set"}
+    if (TLFU + "::increment") not in adders:
+        rep.missing(rule, fl, "TinyLFU::increment does not add to the doorkeeper")
+    extra = adders - ok_adders
+    rep.check(not extra, rule, fl, BLOOM, "doorkeeper adders", "a hash enters the doorkeeper only through TinyLFU::increment (which advances the window)",
+              "the doorkeeper is also filled by %s, outside the sample window: between two resets it can hold more hashes than it was sized for (false positives above the target), and the added hashes never age" % sorted(short(x) for x in extra))
+
+
 def check_reset_complete(rep, fl, rule, only=None):
     """`clear()` / `reset()` give a fresh object: every field that some other method changes after construction
     is also written (or handed out mutably) by them.  A field that remembers something across a reset - a memo, a
@@ -554,6 +585,7 @@ def check_tinylfu(rep, fl):
     # "clear() zeroes everything": the policy's clear reaches TinyLFU::clear on every path
     import props_life
     props_life.check_policy_clear(rep, fl, rule="R13.3")
+    check_window_owners(rep, fl, rule="R13.6")
     # try_reset: w += 1; reset iff w >= samples
     tr = facts.body(TLFU + "::try_reset")
     at, entry = dataflow(tr)
@@ -742,6 +774,8 @@ def check_C14(rep, fl):
     # estimator's clear on every path (no `nothing tracked` shortcut - lookups of absent keys are in the filter too)
     import props_life
     props_life.check_policy_clear(rep, fl, rule="R14.4")
+    # "after adding up to n distinct hashes": the filter is filled through the windowed path only
+    check_window_owners(rep, fl, rule="R14.7")
     # "after adding up to n distinct hashes": the doorkeeper is built for num_counters entries and is emptied after
     # that many recordings - every hash it receives passes the per-key window count (increment -> try_reset), also
     # for a batch
